@@ -848,7 +848,7 @@ impl Prop for C15 {
     fn evidence(&self, tier: Tier) -> EvidenceSpec {
         EvidenceSpec {
             level: "exploration",
-            rule: "(a) error::listing on every text up to 5/6 fragments over {a, é, 4-byte letter, space, tab, LF, CRLF} and every range on character boundaries, compared with the specification (lines intersecting the range, 1-based numbers, marked character columns); (b) for every node of the parse result of every sentence up to the bounds, the node's source range is inside the file and its text re-parses to that node; (c) every sentence up to the bounds in 9 layouts (fault on line 1 / 2 / 9 / 10 so that the gutter widens, after a non-ASCII comment, after 2- and 4-byte identifiers on the same line, broken over lines wherever the line-break rule allows, CRLF+tab continuation lines) with planted faults: every use unbound, every binder re-bound to an enclosing binder's name (all binder forms), a stray symbol ($, a combining mark, a 4-byte emoji) in every gap; type faults: into every operand / condition / annotation / function-type domain and codomain / applicand position of every type-directed program up to 5 [6] nodes an atom of a wrong class with a unique spelling is planted (plain and after non-ASCII text on the same line) and some diagnostic must mark exactly it; 280 type faults whose operand is written over two to four lines (LF, CRLF, tab-indented, after non-ASCII text) are placed after k preceding lines for every k in 0..12, 94..101 and 995..1001, so that the excerpt's line numbers change width inside it; the diagnostic's listing must mark exactly the planted identifier / symbol (or the parentheses that enclose nothing else). evaluations = texts + sentences x layouts".to_owned(),
+            rule: "(a) error::listing on every text up to 5/6 fragments over {a, é, 4-byte letter, space, tab, LF, CRLF} and every range on character boundaries, compared with the specification (lines intersecting the range, 1-based numbers, marked character columns); (b) for every node of the parse result of every sentence up to the bounds, the node's source range is inside the file and its text re-parses to that node; (c) every sentence up to the bounds in 9 layouts (fault on line 1 / 2 / 9 / 10 so that the gutter widens, after a non-ASCII comment, after 2- and 4-byte identifiers on the same line, broken over lines wherever the line-break rule allows, CRLF+tab continuation lines) with planted faults: every use unbound, every binder re-bound to an enclosing binder's name (all binder forms), a stray symbol ($, a combining mark, a 4-byte emoji) in every gap; type faults: into every operand / condition / annotation / function-type domain and codomain / applicand position of every type-directed program up to 5 [6] nodes an atom of a wrong class with a unique spelling is planted (plain and after non-ASCII text on the same line) and some diagnostic must mark exactly it; 280 type faults whose operand is written over two to four lines (LF, CRLF, tab-indented, after non-ASCII text) are placed after k preceding lines for every k in 0..12, 94..101 and 995..1001, so that the excerpt's line numbers change width inside it; the diagnostic's listing must mark exactly the planted identifier / symbol (or the parentheses that enclose nothing else). Compound offenders: every arithmetic operator, negation, call, conditional and group of class int, every comparison of class bool, function types and functions, written where another class is required (4 + 9 contexts, 3 layouts, 591 programs): some diagnostic must mark exactly the compound. Definition-order diagnostics: the definition-order family k = 3 in three layouts (one line; one definition per line; non-ASCII names with comment lines, broken expressions and nine preceding lines) and two placements: the excerpt shows lines of the file as they are and everything it marks lies inside the definition the message names. evaluations = texts + sentences x layouts".to_owned(),
             assumptions: vec![
                 "a diagnostic for a parenthesised operand may cover the operand with or without the parentheses that enclose it and nothing else".to_owned(),
                 "type faults are planted only where the context fixes the expected class (operands, conditions, annotations, applicands) and with uniquely spelled atoms, so the offending subexpression is known by construction".to_owned(),
